@@ -158,6 +158,8 @@ class Gen:
         cfg["auto_index"] = r.choice(p["auto_index"])
         cfg["tz"] = r.choice(p["zones"])
         cfg["access_mode"] = "r+"
+        if cfg["storage"] == "csv" and p.get("initial_mode_vary"):
+            cfg["access_mode"] = r.choice([m for m in p["modes"] if "+" in m])
         if cfg["storage"] == "csv" and p["csv_vary"]:
             cfg["flush_on_insert"] = r.random() < 0.6
             cfg["encoding"] = r.choice([None, None, "utf-8", "utf-16",
@@ -168,6 +170,8 @@ class Gen:
             cfg["bufsize"] = r.choice([4096, 8192, 65536])
         if cfg["storage"] == "csv" and p.get("flush_vary"):
             cfg["flush_on_insert"] = r.random() < 0.6
+        if cfg["storage"] == "csv" and p.get("flush_off"):
+            cfg["flush_on_insert"] = r.random() >= p["flush_off"]
         if cfg["storage"] == "csv" and p.get("cfg_dialects"):
             cfg["dialect"] = r.choice(["default", "default", "semicolon_all",
                                        "tab", "pipe_sq", "lf"])
